@@ -8,6 +8,7 @@ LEVEL = "model_checking"
 SRC = "harness/c18_containers.cpp"
 SRC_PRIMES = "harness/c18_hashprimes.cpp"
 SRC_ASTR = "harness/c18_arenastring.cpp"
+SRC_SFMT = "harness/c18_sformat.cpp"
 
 # (part, shards)
 # heaviest first; at most PAR parts (x 16 shards) run side by side
@@ -57,10 +58,14 @@ def run(res, ctx):
                                                  label="wide", extra_cxx=["-fno-sanitize=bounds"], **dl))
     if not only or only == "hashprimes":
         jobs.append(lambda r: runner.run_harness(r, SRC_PRIMES, "asan", tier, exclude_objs=["support/arenahash.cpp"], **dl))
+    if not only or only == "sformat":
+        jobs.append(lambda r: runner.run_harness(r, SRC_SFMT, "asan", tier, label="sformat", **dl))
     # build the binaries one after the other first: concurrent first-time builds of one target would race on its ninja file
     from lib import vbuild
     import os
     vbuild.build("asan", os.path.join(vbuild.VERIF, SRC))
+    if not only or only == "sformat":
+        vbuild.build("asan", os.path.join(vbuild.VERIF, SRC_SFMT))
     if not only or only == "arenastring":
         vbuild.build("asan", os.path.join(vbuild.VERIF, SRC_ASTR), extra_cxx=["-fno-sanitize=bounds"])
     if not only or only == "hashprimes":
@@ -79,7 +84,9 @@ def run(res, ctx):
 
 def replay(res, path, ctx):
     text = open(path).read()
-    if "harness=c18_hashprimes" in text:
+    if "harness=c18_sformat" in text:
+        runner.run_harness(res, SRC_SFMT, "asan", ctx["tier"], replay=path, timeout=300)
+    elif "harness=c18_hashprimes" in text:
         runner.run_harness(res, SRC_PRIMES, "asan", ctx["tier"], replay=path, timeout=300, exclude_objs=["support/arenahash.cpp"])
     elif "harness=c18_arenastring" in text or re.search(r"part=arenastring cfg=N=(32|64)", text):
         runner.run_harness(res, SRC_ASTR, "asan", ctx["tier"], replay=path, timeout=300, extra_cxx=["-fno-sanitize=bounds"])
